@@ -15,8 +15,9 @@ is called by a check AFTER its v2 part, with the check's own lib.Run: it
 It never raises: a failure to build or run is recorded in run.broken (verdict: VIOLATION ... no-failing-input-found unless an
 oracle failure was found too).
 
-Wiring (see the end of this file for the exact edits): every codec check passes `post=rootmode.post("<mode>")` to
-generic.run_check (through codecmode.run / patchmode.run); C04, which has its own post callback, calls run_root at its end.
+Wiring (tools/rootmode_wiring.diff; summary at the end of this file): every codec check passes `post=rootmode.post("<mode>")` to
+generic.run_check (through codecmode.run / patchmode.run); C04 and C06, which have their own post callback, call run_root at its end.
+For c11 and c07 the root part also runs the oracle-only partial-update mode c11p of the root driver (EXTRA_MODES).
 """
 import json, os, time
 import rootcodec
@@ -35,6 +36,10 @@ ROOT_TRUSTED = (
     "files are stated for the v2 model: for the root module they apply through this instantiation only")
 
 # quick tier: how many shards of cases are evaluated by the model (evenly spread over the run; the Go oracles see every case)
+# oracle-only driver modes run after the main mode (no cases for the model): partial updates through the root X_PartialUpdate bindings
+# (harness/rootdrv/root_patch.go) belong to C11 and C07, as mode c11p does in the v2 part (checks/patchmode.py)
+EXTRA_MODES = dict(c11=["c11p"], c07=["c11p"])
+
 QUICK_SHARDS = dict(c01=12, c04=120, c06=12, c07=9, c11=9, c13=6)
 THOROUGH_SHARDS = dict(c01=150, c04=1200, c06=200, c07=160, c11=120, c13=100)
 
@@ -102,6 +107,22 @@ def run_root(run, mode, tier, seed, timeout=3000, replay=None):
             cov.update(correspondence_cases=ncases, correspondence_cases_total=len(cases["cases"]),
                        correspondence_mismatches=nmis)
             run.log("root module: model evaluated on %d of %d cases: %d mismatches" % (ncases, len(cases["cases"]), nmis))
+        for xm in EXTRA_MODES.get(mode, []):
+            xout = os.path.join(work, "cases_" + xm)
+            rc, o = sh([exe, "--out", xout, "--tier", tier, "--seed", str(seed)], cwd=work,
+                       env=env_go(dict(VERIF_SCHEMA=schema, VERIF_MODE=xm)), timeout=timeout)
+            if rc != 0:
+                raise Broken("correspondence", "root driver (mode %s) failed (exit %s)" % (xm, rc), o[-6000:])
+            xrep = json.load(open(os.path.join(xout, "report.json")))
+            run.log("root module: driver %s: %d evaluations, %d distinct non-trivial, %d oracle failures" %
+                    (xm, xrep["evaluations"], xrep["distinct_nontrivial"], len(xrep["failures"])))
+            for f in xrep["failures"]:
+                run.fail_input("root:" + f["sig"], "[root module] " + f["what"], f["case"], site=f.get("site"), impl=f.get("impl"))
+            cov[xm] = dict(evaluations=xrep["evaluations"], distinct_nontrivial=xrep["distinct_nontrivial"], rule=xrep["rule"],
+                           samples=xrep["samples"][:3] or ["(none)"], input_distribution=xrep["distribution"],
+                           oracle_failures=sorted(set(f["sig"] for f in xrep["failures"])),
+                           note="decided by the property oracle on the implementation only (the patch model Codec/Patch.v transcribes the "
+                                "v2 generated code, which the root generator does not share)")
     except Broken as b:
         run.broken.append(b)
         cov["broken"] = "%s: %s" % (b.kind, b.name)
@@ -119,16 +140,18 @@ def post(mode, then=None):
 
 
 # ---------------------------------------------------------------------------------------------------- wiring (for the lead)
+# The exact edits are in tools/rootmode_wiring.diff (`git apply tools/rootmode_wiring.diff` in /verif).  In words:
 # checks/codecmode.py   def run(..., timeout=3000, post=None):   and pass   post=post,   to run_check(...)
-# checks/patchmode.py   def run(pid, tier, seed, replay, base=None, timeout=3000, post=None):
+# checks/patchmode.py   import rootmode;  def run(pid, tier, seed, replay, base=None, timeout=3000, post=None):
 #                       base is None branch:  run_check(..., post=post)
-#                       base branch:          post=rootmode.post_chain(patch_post(state, timeout), post)   [or: import rootmode; see below]
-# checks/c01.py         return run("C01", "c01", ..., post=rootmode.post("c01"))
-# checks/c06.py         return run("C06", "c06", ..., post=rootmode.post("c06"))
-# checks/c13.py         return run("C13", "c13", ..., post=rootmode.post("c13"))
-# checks/c07.py         return patchmode.run("C07", ..., base=dict(...), post=rootmode.post("c07"))
-# checks/c11.py         return patchmode.run("C11", ..., base=dict(...), post=rootmode.post("c11"))
-# checks/c04.py         last line of its post():   rootmode.run_root(run, "c04", tier, seed)
+#                       base branch:          post=rootmode.post_chain(patch_post(state, timeout), post)
+# checks/c01.py         import rootmode;  run("C01", "c01", ..., post=rootmode.post("c01"))
+# checks/c13.py         import rootmode;  run("C13", "c13", ..., post=rootmode.post("c13"))
+# checks/c07.py         import rootmode;  patchmode.run("C07", ..., base=dict(...), post=rootmode.post("c07"))   (also runs root mode c11p)
+# checks/c11.py         import rootmode;  patchmode.run("C11", ..., base=dict(...), post=rootmode.post("c11"))   (also runs root mode c11p)
+# checks/c04.py         import rootmode;  last line of its own post():   rootmode.run_root(run, "c04", tier, seed)
+# checks/c06.py         import rootmode;  last line of its own post():   rootmode.run_root(run, "c06", tier, seed)
+# checks/roottest.py is the stand-alone runner used while this was built (ROOT_PID=C01 ./check roottest); delete it once wired.
 def post_chain(*posts):
     def cb(run, rep, out):
         for p in posts:
